@@ -3,184 +3,7 @@
    unit.calls is, as a set, what the Spec says the unit invokes. *)
 From Coq Require Import ZArith Lia.
 From Ford Require Import Base.Str Base.StrFacts Gen.Intrinsics Sem.Calls Sem.CallsSpec Sem.CallsDefs Sem.CallsStrip Sem.CallsScan
-  Sem.CallsStmt Sem.CallsProofs.
-
-(* ------------------------------------------------------------------ level order against pre-order *)
-Lemma deep_heads_app d : forall l1 l2, deep_heads d (l1 ++ l2) = deep_heads d l1 ++ deep_heads d l2.
-Proof.
-  induction d as [|d IH]; intros l1 l2; cbn [deep_heads]; [apply flat_map_app|].
-  rewrite flat_map_app. apply IH.
-Qed.
-
-Lemma deep_heads_in d es e ch : In e es -> In ch (deep_heads d [e]) -> In ch (deep_heads d es).
-Proof.
-  intros Hin Hch. apply in_split in Hin as (l1 & l2 & ->).
-  change (l1 ++ e :: l2) with (l1 ++ [e] ++ l2). rewrite !deep_heads_app, !in_app_iff. tauto.
-Qed.
-
-Lemma deep_heads_ex d es ch : In ch (deep_heads d es) -> exists e, In e es /\ In ch (deep_heads d [e]).
-Proof.
-  induction es as [|e es IH]; intros H.
-  - exfalso. revert H. clear. induction d; cbn; auto.
-  - change (e :: es) with ([e] ++ es) in H. rewrite deep_heads_app, in_app_iff in H. destruct H as [H|H].
-    + exists e. split; [now left|exact H].
-    + destruct (IH H) as (e' & Hin & Hch). exists e'. split; [now right|exact Hch].
-Qed.
-
-Lemma deep_heads_S d e : deep_heads (S d) [e] = deep_heads d (subs_e e).
-Proof. cbn [deep_heads flat_map]. now rewrite app_nil_r. Qed.
-
-
-Lemma refs_d_split :
-  (forall e : expr, True) /\
-  (forall d pre ch, In ch (refs_d pre d) <-> In ch (self_refs_d pre d) \/ In ch (arg_refs_d d)).
-Proof.
-  split; [trivial|]. induction d as [x|x a|x r IH|x a r IH]; intros pre ch; cbn [refs_d self_refs_d arg_refs_d].
-  - tauto.
-  - cbn [In]. tauto.
-  - apply IH.
-  - cbn [In]. rewrite !in_app_iff, IH. tauto.
-Qed.
-
-(* the head the model finds is the last of these *)
-Lemma head_chain_last d : forall pre c, d_head_chain d = Some c -> self_refs_d pre d <> [] /\ last (self_refs_d pre d) [] = pre ++ c.
-Proof.
-  induction d as [x|x a|x r IH|x a r IH]; intros pre c H; cbn [d_head_chain self_refs_d] in *.
-  - discriminate.
-  - injection H as <-. split; [discriminate|reflexivity].
-  - destruct (d_head_chain r) as [c'|]; [|discriminate]. injection H as <-.
-    destruct (IH (pre ++ [lower x]) c' eq_refl) as [Hn Hl]. split; [exact Hn|]. rewrite Hl, <- app_assoc. reflexivity.
-  - injection H as <-. destruct (d_head_chain r) as [c'|] eqn:E.
-    + destruct (IH (pre ++ [lower x]) c' eq_refl) as [Hn Hl]. split; [discriminate|].
-      destruct (self_refs_d (pre ++ [lower x]) r) eqn:Es; [contradiction|]. cbn [last] in *. rewrite Hl, <- app_assoc. reflexivity.
-    + split; [discriminate|].
-      assert (Hnil : forall p, self_refs_d p r = []).
-      { clear -E. induction r as [y|y b|y r' IHr|y b r' IHr]; intros p; cbn [d_head_chain self_refs_d] in *;
-          try reflexivity; try discriminate. destruct (d_head_chain r'); [discriminate|]. now apply IHr. }
-      rewrite Hnil. reflexivity.
-Qed.
-
-Lemma head_chain_none d : d_head_chain d = None -> forall pre, self_refs_d pre d = [].
-Proof.
-  induction d as [y|y b|y r' IHr|y b r' IHr]; intros E p; cbn [d_head_chain self_refs_d] in *;
-    try reflexivity; try discriminate. destruct (d_head_chain r'); [discriminate|]. now apply IHr.
-Qed.
-
-
-
-Lemma in_removelast_or {A} (l : list A) (d x : A) : In x l -> In x (removelast l) \/ x = last l d.
-Proof.
-  induction l as [|a l IH]; intros H; [contradiction|].
-  destruct l as [|b l]; [destruct H as [<-|[]]; now right|].
-  destruct H as [<-|H]; [left; now left|]. destruct (IH H) as [H1|H1]; [left; now right|right; exact H1].
-Qed.
-
-Lemma in_removelast {A} (l : list A) x : In x (removelast l) -> In x l.
-Proof.
-  induction l as [|a l IH]; intros H; [contradiction|]. destruct l as [|b l]; [contradiction|].
-  destruct H as [<-|H]; [now left|right; now apply IH].
-Qed.
-
-Lemma d_heads0_in d ch : In ch (d_heads0 d) <-> d_head_chain d = Some ch.
-Proof. unfold d_heads0. destruct (d_head_chain d); cbn; split; intros H; try tauto; try discriminate.
-  - destruct H as [<-|[]]. reflexivity. - injection H as <-. now left. Qed.
-
-(* arguments of a designator are its parenthesised parts *)
-Lemma arg_refs_subs d ch : In ch (arg_refs_d d) <-> exists a, In a (subs_d d) /\ In ch (refs_e a).
-Proof.
-  induction d as [x|x a|x r IH|x a r IH]; cbn [arg_refs_d subs_d].
-  - split; [contradiction|intros (a & [] & _)].
-  - split; [intros H; exists a; split; [now left|exact H]|intros (a' & [<-|[]] & H); exact H].
-  - exact IH.
-  - rewrite in_app_iff, IH. split.
-    + intros [H|(a' & Hin & H)]; [exists a; split; [now left|exact H]|exists a'; split; [now right|exact H]].
-    + intros (a' & [<-|Hin] & H); [now left|right; eauto].
-Qed.
-Lemma inner_args_subs d ch : In ch (inner_args d) <-> exists a, In a (subs_d d) /\ In ch (inner_e a).
-Proof.
-  induction d as [x|x a|x r IH|x a r IH]; cbn [inner_args subs_d].
-  - split; [contradiction|intros (a & [] & _)].
-  - split; [intros H; exists a; split; [now left|exact H]|intros (a' & [<-|[]] & H); exact H].
-  - exact IH.
-  - rewrite in_app_iff, IH. split.
-    + intros [H|(a' & Hin & H)]; [exists a; split; [now left|exact H]|exists a'; split; [now right|exact H]].
-    + intros (a' & [<-|Hin] & H); [now left|right; eauto].
-Qed.
-
-(* (1) every head the model finds at some level is a reference of the Spec *)
-Lemma heads0_refs :
-  (forall e ch, In ch (e_heads0 e) -> In ch (refs_e e)) /\ (forall d : desig, True).
-Proof.
-  split; [|trivial]. induction e as [t|d|e IH|op e IH|a IHa op b IHb]; intros ch H; cbn [e_heads0 refs_e] in *.
-  - contradiction.
-  - apply d_heads0_in in H. apply (proj2 refs_d_split). left.
-    destruct (head_chain_last d [] ch H) as [Hn Hl]. cbn [app] in Hl.
-    destruct (exists_last Hn) as (l' & z & E). rewrite E in Hl |- *. rewrite last_last in Hl. subst z.
-    apply in_or_app. right. now left.
-  - contradiction.
-  - now apply IH.
-  - apply in_app_iff in H. apply in_app_iff. destruct H; [left; now apply IHa|right; now apply IHb].
-Qed.
-
-Lemma subs_refs :
-  (forall e e' ch, In e' (subs_e e) -> In ch (refs_e e') -> In ch (refs_e e)) /\ (forall d : desig, True).
-Proof.
-  split; [|trivial]. induction e as [t|d|e IH|op e IH|a IHa op b IHb]; intros e' ch Hs Hr; cbn [subs_e refs_e] in *.
-  - contradiction.
-  - apply (proj2 refs_d_split). right. apply arg_refs_subs. eauto.
-  - destruct Hs as [<-|[]]. exact Hr.
-  - eapply IH; eauto.
-  - apply in_app_iff in Hs. apply in_app_iff. destruct Hs; [left; eapply IHa; eauto|right; eapply IHb; eauto].
-Qed.
-
-Lemma deep_heads_refs d : forall es ch, In ch (deep_heads d es) -> exists e, In e es /\ In ch (refs_e e).
-Proof.
-  induction d as [|d IH]; intros es ch H; cbn [deep_heads] in H.
-  - apply in_flat_map in H as (e & Hin & Hch). exists e. split; [exact Hin|now apply (proj1 heads0_refs)].
-  - destruct (IH _ _ H) as (e' & Hin & Hch). apply in_flat_map in Hin as (e & He & He').
-    exists e. split; [exact He|]. exact (proj1 subs_refs e e' ch He' Hch).
-Qed.
-
-(* (2) every reference of the Spec is found at some level, or is an inner part of a designator *)
-Lemma refs_heads :
-  (forall e ch, In ch (refs_e e) -> In ch (inner_e e) \/ exists d, In ch (deep_heads d [e])) /\
-  (forall d ch, In ch (arg_refs_d d) -> In ch (inner_args d) \/ exists k a, In a (subs_d d) /\ In ch (deep_heads k [a])).
-Proof.
-  apply expr_desig_ind.
-  - intros t ch H. contradiction.
-  - intros d IH ch H. cbn [refs_e inner_e] in *. apply (proj2 refs_d_split) in H. destruct H as [H|H].
-    + destruct (d_head_chain d) as [c|] eqn:E.
-      * destruct (head_chain_last d [] c E) as [Hn Hl]. cbn [app] in Hl.
-        destruct (in_removelast_or _ [] ch H) as [Hi|He].
-        -- left. apply in_app_iff. left. exact Hi.
-        -- right. exists 0. cbn [deep_heads flat_map e_heads0]. rewrite app_nil_r. apply d_heads0_in. rewrite E. f_equal. subst ch. symmetry. exact Hl.
-      * rewrite (head_chain_none d E []) in H. contradiction.
-    + destruct (IH ch H) as [Hi|(k & a & Ha & Hk)].
-      * left. apply in_app_iff. now right.
-      * right. exists (S k). rewrite deep_heads_S. cbn [subs_e]. exact (deep_heads_in k _ a ch Ha Hk).
-  - intros e IH ch H. cbn [refs_e inner_e] in *. destruct (IH ch H) as [Hi|(k & Hk)]; [now left|].
-    right. exists (S k). rewrite deep_heads_S. cbn [subs_e]. exact Hk.
-  - intros op e IH ch H. cbn [refs_e inner_e] in *. destruct (IH ch H) as [Hi|(k & Hk)]; [now left|].
-    right. exists k. destruct k; [exact Hk|]. rewrite deep_heads_S in *. exact Hk.
-  - intros a IHa op b IHb ch H. cbn [refs_e inner_e] in *. apply in_app_iff in H. destruct H as [H|H].
-    + destruct (IHa ch H) as [Hi|(k & Hk)]; [left; apply in_app_iff; now left|].
-      right. exists k. destruct k.
-      * cbn [deep_heads flat_map e_heads0] in *. rewrite app_nil_r in *. apply in_app_iff. now left.
-      * rewrite deep_heads_S in *. cbn [subs_e]. rewrite deep_heads_app. apply in_app_iff. now left.
-    + destruct (IHb ch H) as [Hi|(k & Hk)]; [left; apply in_app_iff; now right|].
-      right. exists k. destruct k.
-      * cbn [deep_heads flat_map e_heads0] in *. rewrite app_nil_r in *. apply in_app_iff. now right.
-      * rewrite deep_heads_S in *. cbn [subs_e]. rewrite deep_heads_app. apply in_app_iff. now right.
-  - intros x ch H. contradiction.
-  - intros x a IH ch H. cbn [arg_refs_d inner_args subs_d] in *. destruct (IH ch H) as [Hi|(k & Hk)]; [now left|].
-    right. exists k, a. split; [now left|exact Hk].
-  - intros x r IH ch H. cbn [arg_refs_d inner_args subs_d] in *. exact (IH ch H).
-  - intros x a IHa r IHr ch H. cbn [arg_refs_d inner_args subs_d] in *. apply in_app_iff in H. destruct H as [H|H].
-    + destruct (IHa ch H) as [Hi|(k & Hk)]; [left; apply in_app_iff; now left|].
-      right. exists k, a. split; [now left|exact Hk].
-    + destruct (IHr ch H) as [Hi|(k & a' & Ha' & Hk)]; [left; apply in_app_iff; now right|].
-      right. exists k, a'. split; [now right|exact Hk].
-Qed.
+  Sem.CallsStmt Sem.CallsProofs Sem.CallsBridge Sem.CallsGate Sem.CallsAssoc.
 
 (* ------------------------------------------------------------------ the filter-and-append loop *)
 Lemma str_in_In x l : str_in x l = true <-> In x l.
@@ -273,55 +96,92 @@ Proof.
   unfold stmt_step. destruct (line_step st (mask_quotes x)); [apply IH|reflexivity].
 Qed.
 
-Lemma subst_head_nil ch : subst_head [] ch = Some ch.
-Proof. destruct ch; reflexivity. Qed.
-
-Lemma raw_calls_nil line : raw_calls [] line = map norm_chain (chain_texts line).
+Lemma raw_calls_subst (a : assocs) line : raw_calls a line = subst_chains a (map norm_chain (chain_texts line)).
 Proof.
-  unfold raw_calls. induction (chain_texts line) as [|x l IH]; [reflexivity|].
-  cbn [flat_map map]. now rewrite subst_head_nil, IH.
+  unfold raw_calls, subst_chains. induction (chain_texts line) as [|x l IH]; [reflexivity|].
+  cbn [flat_map map]. now rewrite subst_head_expand, IH.
 Qed.
 
-Lemma line_step_stmt st calls : wf_stmt st = true -> plain_ok st = true -> step_ok st = true ->
-  line_step ([], calls) (render_stmt st) = Some ([], append_calls calls (unit_chains st)).
+(* one statement of the unit under the associations [a] in force *)
+Lemma line_step_stmt (a : assocs) st calls : wf_stmt st = true -> plain_ok st = true -> step_ok st = true ->
+  (st = SEndAssoc -> a <> []) ->
+  line_step (a, calls) (render_stmt st) = Some (env_after a st, append_calls calls (subst_chains a (unit_chains st))).
 Proof.
-  intros Hwf Hplain Hstep. unfold unit_chains.
-  assert (Hseg : seg_stmt st = true -> cascade_ok (render_stmt st) && (call_gate (render_stmt st) || is_nil (stmt_chains st)) = true ->
-                 line_step ([], calls) (render_stmt st) = Some ([], append_calls calls (stmt_chains st))).
-  { intros Hs H. apply andb_true_iff in H as [Hc Hg]. unfold cascade_ok in Hc.
+  intros Hwf Hplain Hstep Hend. unfold unit_chains.
+  assert (Hseg : seg_stmt st = true -> cascade_ok (render_stmt st) = true ->
+                 line_step (a, calls) (render_stmt st) = Some (a, append_calls calls (subst_chains a (stmt_chains st)))).
+  { intros Hs Hc. pose proof (gate_stmt st Hs Hwf) as Hg. unfold cascade_ok in Hc.
     apply andb_true_iff in Hc as [Hc H4]. apply andb_true_iff in Hc as [Hc H3]. apply andb_true_iff in Hc as [H1 H2].
     apply negb_true_iff in H1, H2. unfold line_step. rewrite H1, H2.
     destruct (associate_re (render_stmt st)); [discriminate|].
     destruct (goto_rewrite false [] (render_stmt st)); [discriminate|].
     pose proof (raw_stmt st Hs Hwf Hplain) as Hraw.
     destruct (call_gate (render_stmt st)).
-    - unfold add_calls. now rewrite raw_calls_nil, Hraw.
-    - cbn [orb] in Hg. destruct (stmt_chains st); [reflexivity|discriminate]. }
-  destruct st as [lab sp f|lab d|lab sp c d|sp pairs| |lab sp body|labels e]; cbn [seg_stmt step_ok] in *;
-    try discriminate; try (apply Hseg; [reflexivity|exact Hstep]).
-  - (* FORMAT *) cbn [append_calls]. unfold line_step. now rewrite Hstep.
+    - unfold add_calls. now rewrite raw_calls_subst, Hraw.
+    - destruct Hg as [Hg|Hg]; [discriminate|]. now rewrite Hg. }
+  destruct st as [lab sp f|lab d|lab sp c d|sp pairs| |lab sp body|labels e]; cbn [seg_stmt step_ok env_after] in *;
+    try (apply Hseg; [reflexivity|exact Hstep]).
+  - (* ASSOCIATE *)
+    rewrite (assoc_step a calls sp pairs Hwf Hstep). unfold add_calls.
+    rewrite raw_calls_subst, (raw_stmt (SAssoc sp pairs) eq_refl Hwf Hplain). reflexivity.
+  - (* END ASSOCIATE *)
+    rewrite end_assoc_step. cbn [subst_chains flat_map append_calls].
+    destruct (rev a) as [|x ra] eqn:Er.
+    + exfalso. apply (Hend eq_refl). apply (f_equal (@rev _)) in Er. now rewrite rev_involutive in Er.
+    + now rewrite (rev_removelast a x ra Er).
+  - (* FORMAT *) cbn [subst_chains flat_map append_calls]. cbn [wf_stmt] in Hwf.
+    apply andb_true_iff in Hwf as [Hwf Hnl]. apply andb_true_iff in Hwf as [Hl _]. apply negb_true_iff in Hnl.
+    exact (format_inert lab sp body (a, calls) Hl Hnl).
   - (* computed GO TO *)
     apply andb_true_iff in Hstep as [Hc Hg]. apply andb_true_iff in Hc as [Hc H3]. apply andb_true_iff in Hc as [H1 H2].
     apply negb_true_iff in H1, H2. unfold line_step. rewrite H1, H2.
     destruct (associate_re (render_stmt (SGoto labels e))); [discriminate|].
     destruct (goto_rewrite false [] (render_stmt (SGoto labels e))) as [line'|]; [|discriminate].
-    apply andb_true_iff in Hg as [He Hg]. apply str_eqb_eq in He. subst line'.
+    apply str_eqb_eq in Hg. subst line'.
     cbn [wf_stmt] in Hwf. apply andb_true_iff in Hwf as [_ Hsegs].
-    pose proof (raw_goto e Hsegs) as Hraw.
+    pose proof (raw_goto e Hsegs) as Hraw. pose proof (gate_goto e Hsegs) as Hgate.
     destruct (call_gate (render_segs (goto_segs e))).
-    + unfold add_calls. rewrite raw_calls_nil, Hraw. reflexivity.
-    + cbn [orb] in Hg. unfold stmt_chains in Hg |- *.
-      destruct (flat_map seg_heads0 (goto_segs e) ++ _); [reflexivity|discriminate].
+    + unfold add_calls. rewrite raw_calls_subst, Hraw. reflexivity.
+    + destruct Hgate as [Hgate|Hgate]; [discriminate|]. unfold stmt_chains. now rewrite Hgate.
 Qed.
 
-Lemma run_unit ss : forall calls,
-  forallb wf_stmt ss = true -> forallb plain_ok ss = true -> forallb step_ok ss = true ->
-  run_lines ([], calls) (map render_stmt ss) = Some ([], append_calls calls (flat_map unit_chains ss)).
+(* C08_raw under ASSOCIATE: with the associations [a] in force the chains collected from a statement are
+   those of C08_raw with a leading associate name replaced by its selector's chain (the rest
+   appended), and without the chains headed by the name of an expression value *)
+Theorem raw_assoc (a : assocs) st : seg_stmt st = true -> wf_stmt st = true -> plain_ok st = true ->
+  raw_calls a (render_stmt st) = subst_chains a (stmt_chains st).
+Proof. intros Hs Hwf Hp. now rewrite raw_calls_subst, (raw_stmt st Hs Hwf Hp). Qed.
+
+(* the chains the model collects from a unit, statement by statement, under the associations in force *)
+Fixpoint model_chains (a : aenv) (ss : list stmt) : list chain :=
+  match ss with
+  | [] => []
+  | st :: r => subst_chains a (unit_chains st) ++ model_chains (env_after a st) r
+  end.
+
+Lemma removelast_length {A} (l : list A) : length (removelast l) = length l - 1.
 Proof.
-  induction ss as [|st ss IH]; intros calls Hwf Hp Hs; [reflexivity|].
+  induction l as [|x l IH]; [reflexivity|]. destruct l as [|y l]; [reflexivity|].
+  change (removelast (x :: y :: l)) with (x :: removelast (y :: l)). cbn [length] in *. lia.
+Qed.
+
+Lemma run_unit ss : forall (a : assocs) calls,
+  forallb wf_stmt ss = true -> forallb plain_ok ss = true -> forallb step_ok ss = true -> nest_ok (length a) ss = true ->
+  run_lines (a, calls) (map render_stmt ss) = Some (fold_left env_after ss a, append_calls calls (model_chains a ss)).
+Proof.
+  induction ss as [|st ss IH]; intros a calls Hwf Hp Hs Hn; [reflexivity|].
   cbn [forallb] in *. apply andb_true_iff in Hwf as [Hw Hwf]. apply andb_true_iff in Hp as [Hp1 Hp].
-  apply andb_true_iff in Hs as [Hs1 Hs]. cbn [map run_lines flat_map].
-  rewrite (line_step_stmt st calls Hw Hp1 Hs1). rewrite (IH _ Hwf Hp Hs). now rewrite append_calls_app.
+  apply andb_true_iff in Hs as [Hs1 Hs]. cbn [map run_lines model_chains].
+  assert (Hend : st = SEndAssoc -> a <> []).
+  { intros -> E. subst a. cbn in Hn. discriminate. }
+  pose proof (line_step_stmt a st calls Hw Hp1 Hs1 Hend) as Hstep.
+  assert (Hn' : nest_ok (length (env_after a st)) ss = true).
+  { destruct st; cbn [env_after nest_ok] in *; try exact Hn.
+    - rewrite app_length. cbn [length]. now rewrite Nat.add_1_r.
+    - pose proof (removelast_length a) as Hl. unfold assocs, batch, aenv in *. destruct (length a) as [|n] eqn:El; [discriminate|].
+      replace (length (removelast a)) with n by lia. exact Hn. }
+  pose proof (IH (env_after a st) (append_calls calls (subst_chains a (unit_chains st))) Hwf Hp Hs Hn') as E.
+  rewrite Hstep. cbv beta iota. rewrite append_calls_app. exact E.
 Qed.
 
 (* ------------------------------------------------------------------ resolution *)
@@ -428,24 +288,18 @@ Proof.
   intros Hsub H. destruct (deep_heads_ex d es ch H) as (e & Hin & Hch). exact (deep_heads_in d es' e ch (Hsub e Hin) Hch).
 Qed.
 
-Lemma seg_sub_refs g e' ch : In e' (subs_seg g) -> In ch (refs_e e') -> In ch (seg_refs g).
-Proof.
-  destruct g as [w|kw sp c|e]; cbn [subs_seg seg_refs]; intros Hs Hr.
-  - contradiction.
-  - destruct Hs as [<-|[]]. exact Hr.
-  - exact (proj1 subs_refs e e' ch Hs Hr).
-Qed.
-
 (* (1) for segments *)
 Lemma segs_bridge1 gs n ch :
   (forall kw, In kw (flat_map seg_kw gs) -> In kw grammar_keywords) ->
   In ch (flat_map seg_heads0 gs ++ level_heads (flat_map subs_seg gs) n) ->
-  keep ch = false \/ In ch (flat_map seg_refs gs).
+  (exists kw, In kw grammar_keywords /\ ch = [kw]) \/ In ch (flat_map seg_refs gs).
 Proof.
   intros Hkw H. apply in_app_iff in H as [H|H].
   - apply in_flat_map in H as (g & Hg & Hch). destruct g as [w|kw sp c|e]; cbn [seg_heads0] in Hch.
     + contradiction.
-    + destruct Hch as [<-|[]]. left. apply keyword_not_kept, Hkw. apply in_flat_map. exists (GKw kw sp c). split; [exact Hg|now left].
+    + destruct Hch as [<-|[]]. left.
+      assert (Hk : In kw grammar_keywords) by (apply Hkw, in_flat_map; exists (GKw kw sp c); split; [exact Hg|now left]).
+      exists kw. split; [exact Hk|]. now rewrite (lower_keywords kw Hk).
     + right. apply in_flat_map. exists (GExpr e). split; [exact Hg|]. cbn [seg_refs]. now apply (proj1 heads0_refs).
   - right. apply in_level_heads in H as (d & _ & Hd). destruct (deep_heads_refs d _ ch Hd) as (e' & Hin & Hr).
     apply in_flat_map in Hin as (g & Hg & He'). apply in_flat_map. exists g. split; [exact Hg|]. exact (seg_sub_refs g e' ch He' Hr).
@@ -523,16 +377,21 @@ Proof.
   - rewrite app_nil_r. apply in_removelast.
 Qed.
 
-Definition seg_stmt_noassoc (st : stmt) : bool :=
-  match st with SForm _ _ _ | SCall _ _ | SIfCall _ _ _ _ => true | _ => false end.
+Lemma refs_assoc_list pairs : refs_e (assoc_list pairs) = flat_map (fun p => refs_e (snd p)) pairs.
+Proof.
+  induction pairs as [|[n e] pairs IH]; [reflexivity|]. destruct pairs as [|q pairs].
+  - cbn [assoc_list refs_e refs_d flat_map snd app]. now rewrite app_nil_r.
+  - change (assoc_list ((n, e) :: q :: pairs)) with (EBin (EBin (EDes (DLast0 n)) (s " => ") e) (s ", ") (assoc_list (q :: pairs))).
+    cbn [refs_e refs_d app]. rewrite IH. reflexivity.
+Qed.
 
 (* (1) per statement *)
-Lemma stmt_bridge1 st ch : seg_stmt_noassoc st = true -> wf_stmt st = true ->
-  In ch (stmt_chains st) -> keep ch = false \/ In ch (stmt_refs st).
+Lemma stmt_bridge1 st ch : seg_stmt st = true -> wf_stmt st = true ->
+  In ch (stmt_chains st) -> (exists kw, In kw grammar_keywords /\ ch = [kw]) \/ In ch (stmt_refs st).
 Proof.
   intros Hs Hwf H.
   assert (Hgen : forall n, In ch (flat_map seg_heads0 (stmt_segs st) ++ level_heads (flat_map subs_seg (stmt_segs st)) n) ->
-                 keep ch = false \/ In ch (flat_map seg_refs (stmt_segs st))).
+                 (exists kw, In kw grammar_keywords /\ ch = [kw]) \/ In ch (flat_map seg_refs (stmt_segs st))).
   { intros n. apply segs_bridge1. intros kw. apply stmt_keywords. }
   assert (Hd : forall d, In ch (refs_d [] d) -> In ch (names_d d :: inner_refs_d [] d ++ arg_refs_d d)).
   { intros d Hr. apply (proj2 refs_d_split) in Hr as [Hr|Hr].
@@ -558,17 +417,18 @@ Proof.
     cbn [stmt_segs] in Hr. rewrite lab_segs_refs in Hr.
     cbn [flat_map seg_refs refs_e app] in Hr. rewrite app_nil_r in Hr.
     apply in_app_iff in Hr as [Hr|Hr]; apply in_app_iff; [now left|right; now apply Hd].
+  - unfold stmt_chains in H. destruct (Hgen _ H) as [Hk|Hr]; [now left|right].
+    cbn [stmt_segs flat_map seg_refs] in Hr. rewrite app_nil_r, refs_assoc_list in Hr. exact Hr.
 Qed.
 
 Lemma wf_stmt_all st : seg_stmt st = true -> wf_stmt st = true -> forallb wf_seg (stmt_segs st) = true.
 Proof. intros Hs Hwf. apply wf_segs_all. exact (proj1 (wf_stmt_segs st Hs Hwf)). Qed.
 
 (* (2) per statement *)
-Lemma stmt_bridge2 st ch : seg_stmt_noassoc st = true -> wf_stmt st = true ->
+Lemma stmt_bridge2 st ch : seg_stmt st = true -> wf_stmt st = true ->
   In ch (stmt_refs st) -> In ch (stmt_inner st) \/ In ch (stmt_chains st).
 Proof.
-  intros Hs Hwf H.
-  assert (Hseg : seg_stmt st = true) by (destruct st; try discriminate; reflexivity).
+  intros Hs Hwf H. pose proof Hs as Hseg.
   pose proof (wf_stmt_all st Hseg Hwf) as Hall.
   assert (Hrender : render_stmt st = render_segs (stmt_segs st)) by (destruct st; try discriminate; reflexivity).
   assert (Hlevel : forall k e' n, length (render_stmt st) <= n -> In e' (flat_map subs_seg (stmt_segs st)) ->
@@ -604,48 +464,20 @@ Proof.
       unfold stmt_chains.
       destruct (Hargs d (S (length (render_stmt (SIfCall lab sp c d)))) (le_S _ _ (le_n _)) Hsub H) as [Hi|Hl];
         [left; apply in_app_iff; right; apply in_app_iff; now right|right; now right].
+  - assert (H' : In ch (flat_map seg_refs (stmt_segs (SAssoc sp pairs))))
+      by (cbn [stmt_segs flat_map seg_refs]; rewrite app_nil_r, refs_assoc_list; exact H).
+    destruct (segs_bridge2 _ ch Hall H') as [Hi|Hc]; [left; exact Hi|right]. unfold stmt_chains. now rewrite Hrender.
 Qed.
 
 (* ------------------------------------------------------------------ C08_exact *)
-Lemma expand_nil ch : expand [] ch = Some ch.
-Proof. destruct ch; reflexivity. Qed.
-
-Lemma step_ok_free st : step_ok st = true -> assoc_free_stmt st = true.
-Proof. destruct st; cbn; intros H; try reflexivity; discriminate. Qed.
-
-Lemma unit_refs_free ss : forallb assoc_free_stmt ss = true -> unit_refs [] ss = map Some (flat_map stmt_refs ss).
-Proof.
-  induction ss as [|st ss IH]; intros H; [reflexivity|]. cbn [forallb] in H. apply andb_true_iff in H as [H1 H2].
-  cbn [unit_refs flat_map]. rewrite map_app.
-  assert (E : map (expand []) (stmt_refs st) = map Some (stmt_refs st)) by (apply map_ext; intros ch; apply expand_nil).
-  rewrite E. destruct st; try discriminate; now rewrite (IH H2).
-Qed.
-
-Lemma some_refs_free ss : forallb assoc_free_stmt ss = true -> some_refs ss = flat_map stmt_refs ss.
-Proof.
-  intros H. unfold some_refs. rewrite (unit_refs_free ss H), flat_map_map.
-  induction (flat_map stmt_refs ss) as [|c l IH]; [reflexivity|]. cbn [flat_map app]. now rewrite IH.
-Qed.
-
-Lemma calls_of_free tb ss : forallb assoc_free_stmt ss = true ->
-  calls_of tb ss = flat_map (classify0 tb) (flat_map stmt_refs ss).
-Proof.
-  unfold calls_of. induction ss as [|st ss IH]; intros H; [reflexivity|]. cbn [forallb] in H. apply andb_true_iff in H as [H1 H2].
-  cbn [calls_of_stmts flat_map]. rewrite flat_map_app.
-  assert (E : flat_map (classify tb []) (stmt_refs st) = flat_map (classify0 tb) (stmt_refs st)).
-  { induction (stmt_refs st) as [|c l IHl]; [reflexivity|]. cbn [flat_map]. rewrite IHl. f_equal.
-    unfold classify, classify0. now rewrite expand_nil. }
-  rewrite E. destruct st; try discriminate; now rewrite (IH H2).
-Qed.
-
 Lemma goto_segs_all e : wf_segs (goto_segs e) = true -> forallb wf_seg (goto_segs e) = true.
 Proof. apply wf_segs_all. Qed.
 
 Lemma unit_chains_refs st ch : wf_stmt st = true -> step_ok st = true -> In ch (unit_chains st) ->
-  keep ch = false \/ In ch (stmt_refs st).
+  (exists kw, In kw grammar_keywords /\ ch = [kw]) \/ In ch (stmt_refs st).
 Proof.
   intros Hwf Hs H. unfold unit_chains in H.
-  destruct st as [lab sp f|lab d|lab sp c d|sp pairs| | |labels e]; cbn [seg_stmt] in H; try contradiction; try discriminate;
+  destruct st as [lab sp f|lab d|lab sp c d|sp pairs| | |labels e]; cbn [seg_stmt] in H; try contradiction;
     try now apply stmt_bridge1.
   unfold stmt_chains in H. cbn [stmt_refs].
   destruct (segs_bridge1 (goto_segs e) _ ch (fun kw (Hk : In kw (flat_map seg_kw (goto_segs e))) => match Hk with end) H) as [Hk|Hr];
@@ -656,7 +488,7 @@ Lemma stmt_refs_chains st ch : wf_stmt st = true -> step_ok st = true ->
   In ch (stmt_refs st) -> In ch (stmt_inner st) \/ In ch (unit_chains st).
 Proof.
   intros Hwf Hs H. unfold unit_chains.
-  destruct st as [lab sp f|lab d|lab sp c d|sp pairs| | |labels e]; cbn [seg_stmt stmt_refs] in *; try contradiction; try discriminate;
+  destruct st as [lab sp f|lab d|lab sp c d|sp pairs| | |labels e]; cbn [seg_stmt stmt_refs] in *; try contradiction;
     try now apply stmt_bridge2.
   cbn [wf_stmt] in Hwf. apply andb_true_iff in Hwf as [_ Hsegs].
   assert (H' : In ch (flat_map seg_refs (goto_segs e))) by (cbn [goto_segs flat_map seg_refs app]; now rewrite app_nil_r).
@@ -670,39 +502,115 @@ Proof.
   unfold keep, classify0, den_names. intros H. apply negb_true_iff in H. rewrite H. reflexivity.
 Qed.
 
+(* references of the unit under the associations in force where they stand *)
+Definition opt_list {A} (o : option A) : list A := match o with Some c => [c] | None => [] end.
+Fixpoint env_refs (env : aenv) (ss : list stmt) : list chain :=
+  match ss with
+  | [] => []
+  | st :: r => subst_chains env (stmt_refs st) ++ env_refs (env_after env st) r
+  end.
+
+Lemma subst_chains_in env l ch' : In ch' (subst_chains env l) <-> exists ch, In ch l /\ expand env ch = Some ch'.
+Proof.
+  unfold subst_chains. rewrite in_flat_map. split.
+  - intros (ch & Hin & H). exists ch. split; [exact Hin|]. destruct (expand env ch); [destruct H as [<-|[]]; reflexivity|contradiction].
+  - intros (ch & Hin & H). exists ch. split; [exact Hin|]. rewrite H. now left.
+Qed.
+
+Lemma some_refs_env env ss :
+  flat_map (fun o => match o with Some c => [c] | None => [] end) (unit_refs env ss) = env_refs env ss.
+Proof.
+  revert env. induction ss as [|st ss IH]; intros env; [reflexivity|]. cbn [unit_refs env_refs].
+  rewrite flat_map_app, flat_map_map. unfold subst_chains at 1.
+  f_equal. destruct st; cbn [env_after]; apply IH.
+Qed.
+
+Lemma calls_of_env tb env ss : calls_of_stmts tb env ss = flat_map (classify0 tb) (env_refs env ss).
+Proof.
+  revert env. induction ss as [|st ss IH]; intros env; [reflexivity|]. cbn [calls_of_stmts env_refs].
+  rewrite flat_map_app.
+  assert (E : flat_map (classify tb env) (stmt_refs st) = flat_map (classify0 tb) (subst_chains env (stmt_refs st))).
+  { unfold subst_chains. rewrite flat_map_flat_map. apply flat_map_ext. intros ch. unfold classify, classify0.
+    destruct (expand env ch); [cbn [flat_map]; now rewrite app_nil_r|reflexivity]. }
+  rewrite E. f_equal. destruct st; cbn [env_after]; apply IH.
+Qed.
+
+(* no ASSOCIATE name in force is a keyword of the grammar *)
+Definition env_kw_free (env : aenv) : Prop :=
+  forall b k v, In b env -> In (k, v) b -> ~ In k grammar_keywords.
+
+Lemma aenv_get_absent k rb : (forall b v, In b rb -> ~ In (k, v) b) -> aenv_get k rb = None.
+Proof.
+  induction rb as [|b rb IH]; intros H; [reflexivity|]. cbn [aenv_get].
+  destruct (assoc_get k (rev b)) as [v|] eqn:E.
+  - exfalso. apply assoc_get_in in E. apply (H b v); [now left|]. now apply in_rev.
+  - apply IH. intros b' v Hb. apply H. now right.
+Qed.
+
+Lemma expand_keyword env kw : env_kw_free env -> In kw grammar_keywords -> expand env [kw] = Some [kw].
+Proof.
+  intros Hf Hk. cbn [expand]. rewrite aenv_get_absent; [reflexivity|].
+  intros b v Hb Hin. apply (Hf b kw v); [now apply in_rev|exact Hin|exact Hk].
+Qed.
+
+Lemma env_after_kw_free env st : env_kw_free env ->
+  match st with SAssoc _ pairs => forallb (fun p => negb (str_in (lower (fst p)) grammar_keywords)) pairs = true | _ => True end ->
+  env_kw_free (env_after env st).
+Proof.
+  intros Hf Hst. destruct st as [| | |sp pairs| | |]; cbn [env_after]; try exact Hf.
+  - intros b k v Hb Hin. apply in_app_iff in Hb as [Hb|[<-|[]]]; [exact (Hf b k v Hb Hin)|].
+    unfold new_batch in Hin. apply in_map_iff in Hin as (p & E & Hp). injection E as <- _.
+    rewrite forallb_forall in Hst. specialize (Hst p Hp). apply negb_true_iff in Hst. intros Hk. apply str_in_In in Hk. congruence.
+  - intros b k v Hb Hin. apply in_removelast in Hb. exact (Hf b k v Hb Hin).
+Qed.
+
 Theorem exact tb ss srcs :
   map mask_quotes srcs = map render_stmt ss -> resolvable tb ss = true ->
   exists l, recorded tb srcs = Some l /\ NoDup l /\ forall p, In p l <-> In p (calls_of tb ss).
 Proof.
   intros Hsrc Hres. unfold resolvable in Hres.
   repeat match goal with H : _ && _ = true |- _ => apply andb_true_iff in H as [H ?] end.
-  rename H into Hinner, H0 into Hintr, H1 into Htb, H2 into Hstep, H3 into Hplain.
+  rename H into Hinner, H0 into Hintr, H1 into Htb, H2 into Hnames, H3 into Hnest, H4 into Hstep, H5 into Hplain.
   rename Hres into Hwf.
   apply negb_true_iff in Hintr.
-  assert (Hfree : forallb assoc_free_stmt ss = true).
-  { rewrite forallb_forall in Hstep |- *. intros st Hin. apply step_ok_free. now apply Hstep. }
-  unfold recorded, unit_raw_calls. rewrite run_stmts_lines, Hsrc, (run_unit ss [] Hwf Hplain Hstep).
+  pose proof (run_unit ss [] [] Hwf Hplain Hstep Hnest) as Hrun.
+  unfold recorded, unit_raw_calls. rewrite run_stmts_lines, Hsrc.
+  change (run_lines ([], []) (map render_stmt ss)) with (run_lines (([] : assocs), []) (map render_stmt ss)).
+  cbn [length] in Hrun. rewrite Hrun.
   eexists. split; [reflexivity|]. split; [apply resolve_loop_nodup; constructor|].
-  rewrite (calls_of_free tb ss Hfree).
-  set (chains := flat_map unit_chains ss). set (refs := flat_map stmt_refs ss).
-  assert (B1 : forall ch, In ch chains -> keep ch = true -> In ch refs).
-  { intros ch Hin Hk. apply in_flat_map in Hin as (st & Hst & Hch).
-    rewrite forallb_forall in Hwf, Hstep.
-    destruct (unit_chains_refs st ch (Hwf st Hst) (Hstep st Hst) Hch) as [Hk'|Hr]; [congruence|].
-    apply in_flat_map. eauto. }
+  unfold calls_of. rewrite calls_of_env.
+  (* the two bridges on the whole unit, under the associations in force *)
+  assert (B : forall ss env, forallb wf_stmt ss = true -> forallb step_ok ss = true -> assoc_names_ok ss = true -> env_kw_free env ->
+              (forall ch, In ch (model_chains env ss) -> keep ch = true -> In ch (env_refs env ss)) /\
+              (forall ch, In ch (env_refs env ss) -> In ch (env_inner env ss) \/ In ch (model_chains env ss))).
+  { clear. induction ss as [|st ss IH]; intros env Hwf Hstep Hnames Hfree; [split; intros ch []|].
+    cbn [forallb assoc_names_ok] in *. apply andb_true_iff in Hwf as [Hw Hwf]. apply andb_true_iff in Hstep as [Hs Hstep].
+    apply andb_true_iff in Hnames as [Hn Hnames].
+    assert (Hfree' : env_kw_free (env_after env st)) by (apply env_after_kw_free; [exact Hfree|destruct st; try exact I; exact Hn]).
+    destruct (IH (env_after env st) Hwf Hstep Hnames Hfree') as [I1 I2]. cbn [model_chains env_refs env_inner]. split.
+    - intros ch' Hin Hk. apply in_app_iff in Hin as [Hin|Hin]; apply in_app_iff; [left|right; now apply I1].
+      apply subst_chains_in in Hin as (ch & Hch & He).
+      destruct (unit_chains_refs st ch Hw Hs Hch) as [(kw & Hkw & ->)|Hr].
+      + rewrite (expand_keyword env kw Hfree Hkw) in He. injection He as <-.
+        pose proof (keyword_not_kept kw Hkw) as Hnk. rewrite (lower_keywords kw Hkw) in Hnk. congruence.
+      + apply subst_chains_in. eauto.
+    - intros ch' Hin. apply in_app_iff in Hin as [Hin|Hin].
+      + apply subst_chains_in in Hin as (ch & Hch & He).
+        destruct (stmt_refs_chains st ch Hw Hs Hch) as [Hi|Hc].
+        * left. apply in_app_iff. left. apply subst_chains_in. eauto.
+        * right. apply in_app_iff. left. apply subst_chains_in. eauto.
+      + destruct (I2 ch' Hin) as [Hi|Hc]; [left|right]; apply in_app_iff; now right. }
+  assert (Hfree0 : env_kw_free []) by (intros b k v []).
+  destruct (B ss [] Hwf Hstep Hnames Hfree0) as [B1 B2'].
+  set (chains := model_chains [] ss) in *. set (refs := env_refs [] ss) in *.
   assert (B2 : forall ch, In ch refs -> classify0 tb ch <> [] -> In ch chains).
-  { intros ch Hin Hne. apply in_flat_map in Hin as (st & Hst & Hch).
-    rewrite forallb_forall in Hwf, Hstep.
-    destruct (stmt_refs_chains st ch (Hwf st Hst) (Hstep st Hst) Hch) as [Hi|Hc].
-    - exfalso. apply Hne. rewrite forallb_forall in Hinner.
-      assert (Hin' : In ch (flat_map stmt_inner ss)) by (apply in_flat_map; eauto).
-      specialize (Hinner ch Hin'). destruct (classify0 tb ch); [reflexivity|discriminate].
-    - apply in_flat_map. eauto. }
+  { intros ch Hin Hne. destruct (B2' ch Hin) as [Hi|Hc]; [|exact Hc]. exfalso. apply Hne.
+    rewrite forallb_forall in Hinner. specialize (Hinner ch Hi). destruct (classify0 tb ch); [reflexivity|discriminate]. }
   assert (R2 : forall ch, In ch refs -> classify0 tb ch <> [] -> keep ch = true).
   { intros ch Hin Hne. unfold keep. destruct (str_in (last_of ch) INTRINSICS) eqn:Ei; [|reflexivity]. exfalso.
     unfold classify0 in Hne. rewrite Ei in Hne.
     destruct (denote tb (st_scope tb) ch) as [id| | |] eqn:Ed; try (now apply Hne).
-    unfold region_intrinsic_named in Hintr. rewrite (some_refs_free ss Hfree) in Hintr. fold refs in Hintr.
+    unfold region_intrinsic_named, some_refs in Hintr. rewrite some_refs_env in Hintr. fold refs in Hintr.
     assert (Ht : existsb (fun ch => is_proc_den (denote tb (st_scope tb) ch) && str_in (last_of ch) INTRINSICS) refs = true).
     { apply existsb_exists. exists ch. split; [exact Hin|]. now rewrite Ed, Ei. }
     congruence. }
